@@ -216,3 +216,11 @@ func (f *VerifFile) Master(rows []VerifMasterRow) {
 
 // Open opens a handle on the file (no journal).
 func (f *VerifFile) Open() (*Database, error) { return newDatabase(f.Pager, "") }
+
+// OpenSecond opens another, independent handle on the same file (own pager,
+// own caches), as a second goroutine or connection would.
+func (f *VerifFile) OpenSecond() (*Database, *VerifPager, error) {
+	p := &VerifPager{IDs: f.Pager.IDs, Bufs: f.Pager.Bufs, Copy: true}
+	d, err := newDatabase(p, "")
+	return d, p, err
+}
